@@ -3213,30 +3213,32 @@ class MemRun:
             if st.panic or st.bound_hit:
                 on_done(st, st.meta["results"] + [("panic" if st.panic else "bound", st.panic or st.bound_hit)], st.meta["inner"], i)
                 return
+            results = list(st.meta["results"])  # local: the finished state is not mutated (on_path is re-run after a Fork)
+            meta_upd = {}
             if i <= -2:
                 i = -2 - i  # a skipped pseudo call
             elif i >= 0:
-                st.meta["results"] = st.meta["results"] + [("ret", st.retval)]
+                results.append(("ret", st.retval))
                 lk = self.lock_of(st)
                 if lk is not None and not lk.free():
-                    on_done(st, st.meta["results"] + [("panic", "the call returned while still holding the filesystem lock (writer=%s readers=%s)" % (
+                    on_done(st, results + [("panic", "the call returned while still holding the filesystem lock (writer=%s readers=%s)" % (
                         lk.writer, lk.readers))], st.meta["inner"], i)
                     return
             i += 1
             if i >= len(calls):
-                on_done(st, st.meta["results"], st.meta["inner"], i)
+                on_done(st, results, st.meta["inner"], i)
                 return
             name, vals = calls[i]
             if name.startswith("@@"):
                 # call of a rivia method on the value an earlier call returned: ("@@Type::method" [+ "&" = by reference], [index, args...])
-                prev = st.meta["results"][vals[0]]
+                prev = results[vals[0]]
                 pv = prev[1]
                 if prev[0] == "ret" and isinstance(pv, Adt) and pv.ty == "Result":
                     pv = pv.fields[0] if pv.variant == 0 else None
                 if prev[0] != "ret" or pv is None:
-                    st.meta["results"] = st.meta["results"] + [("skip", None)]
                     st3 = State()
                     st3.done, st3.pc, st3.meta = True, list(st.pc), dict(st.meta)
+                    st3.meta["results"] = results + [("skip", None)]
                     st3.meta["i"] = -2 - i
                     return [st3]
                 byref = name.endswith("&")
@@ -3246,18 +3248,18 @@ class MemRun:
                 st2 = ex.start(fn, [BoxRef(pv) if byref else pv] + list(vals[1:]))
             elif name.startswith("@"):
                 # pseudo call on a handle returned by an earlier call: ("@write"|"@flush"|"@drop", [index of that call, data?])
-                hres = st.meta["results"][vals[0]][1]
+                hres = results[vals[0]][1]
                 if not (isinstance(hres, Adt) and hres.ty == "Result" and hres.variant == 0):
-                    st.meta["results"] = st.meta["results"] + [("skip", None)]
                     st3 = State()
                     st3.done, st3.pc, st3.meta = True, list(st.pc), dict(st.meta)
+                    st3.meta["results"] = results + [("skip", None)]
                     st3.meta["i"] = -2 - i  # marks "nothing was executed"
                     return [st3]
                 handles = dict(st.meta.get("handles") or {})
                 if vals[0] not in handles:
                     h0 = hres.fields[0]
                     handles[vals[0]] = h0 if isinstance(h0, (BoxRef, Ref)) else BoxRef(h0)
-                st.meta["handles"] = handles
+                meta_upd["handles"] = handles
                 handle = handles[vals[0]]
                 fn = ex.auto.resolve({"@write": "<MemfsFile as Write>::write", "@flush": "<MemfsFile as Write>::flush",
                                       "@drop": "<MemfsFile as Drop>::drop"}[name])
@@ -3268,6 +3270,8 @@ class MemRun:
                 st2 = ex.start(self.fn(name), [BoxRef(st.meta["memfs"])] + list(vals))
             st2.pc = list(st.pc)
             st2.meta = dict(st.meta)
+            st2.meta.update(meta_upd)
+            st2.meta["results"] = results
             st2.meta["i"] = i
             if i == len(calls) - 1:
                 st2.meta["before"] = snapshot_store(ex, st, st.meta["inner"])
@@ -3972,7 +3976,7 @@ def run_roundtrip(ctx, prop, max_ops, tag="c06_roundtrip", targets=None, first_o
     ex, ob, solver = run.ex, run.ob, run.solver
     unit = dict(status="pass", failures=[])
     NL = BV(32, False, 10)
-    op_alphabet = ["WA0", "WA1", "WA2", "AA0", "AA1", "AA2", "AL", "WL", "ALS", "HW0", "HW1", "HA1"]
+    op_alphabet = ["WA0", "WA1", "WA2", "AA0", "AA1", "AA2", "AL", "WL", "ALS", "HW0", "HW1", "HA1", "WLE", "ALE"]
     shapes = []
     for n in range(min_ops, max_ops + 1):
         shapes += [sh for sh in itertools.product(op_alphabet, repeat=n) if first_ops is None or sh[0] in first_ops]
@@ -4015,12 +4019,12 @@ def run_roundtrip(ctx, prop, max_ops, tag="c06_roundtrip", targets=None, first_o
                     l = fresh(1, True)
                     calls.append(("append_line", [BoxRef(M.SStr(T_(target))), BoxRef(M.SStr(l))]))
                     model, defined = model + list(l) + [NL], True
-                elif op == "WL":
-                    l1, l2 = fresh(1, True), fresh(2, True)
+                elif op in ("WL", "WLE"):
+                    l1, l2 = fresh(1, True), fresh(2 if op == "WL" else 0, True)  # WLE: the last line is empty
                     calls.append(("write_lines", [BoxRef(M.SStr(T_(target))), BoxRef(M.VecM([BoxRef(M.SStr(l1)), BoxRef(M.SStr(l2))]))]))
                     model, defined = list(l1) + [NL] + list(l2) + [NL], True
                 else:
-                    l1, l2 = fresh(1, True), fresh(1, True)
+                    l1, l2 = fresh(1 if op == "ALS" else 0, True), fresh(1, True)  # ALE: the first line is empty
                     calls.append(("append_lines", [BoxRef(M.SStr(T_(target))), BoxRef(M.VecM([BoxRef(M.SStr(l1)), BoxRef(M.SStr(l2))]))]))
                     model, defined = model + list(l1) + [NL] + list(l2) + [NL], True
             calls.append(("read_all", [BoxRef(M.SStr(T_(target)))]))
@@ -4107,7 +4111,7 @@ def run_roundtrip(ctx, prop, max_ops, tag="c06_roundtrip", targets=None, first_o
             elif op == "AL":
                 d = data[di]; di += 1
                 body += '    v.append_line(%s, %s).unwrap();\n' % (rs_str(f["target"]), rs_str(d)); model += d + "\n"
-            elif op == "WL":
+            elif op in ("WL", "WLE"):
                 a, b = data[di], data[di + 1]; di += 2
                 body += '    v.write_lines(%s, &[%s, %s]).unwrap();\n' % (rs_str(f["target"]), rs_str(a), rs_str(b)); model = a + "\n" + b + "\n"
             else:
@@ -4135,7 +4139,7 @@ fn replay_roundtrip() {
 
 
 C06_FUNCS = ["Memfs::{write_all,append_all,append_line,write_lines,append_lines,read_all,read_lines,write,append,read} and MemfsFile::{write,flush,sync,drop,clone,seek} (real MIR)"]
-C06_OPS = ("{write_all/append_all of 0,1,2 ASCII bytes, append_line, write_lines, append_lines with non-empty 1-2 char lines, "
+C06_OPS = ("{write_all/append_all of 0,1,2 ASCII bytes, append_line, write_lines, append_lines with non-empty 1-2 char lines, write_lines/append_lines of two lines one of which is empty, "
            "handle-based write of 0|1 bytes and append of 1 byte (open, Write::write, drop)}")
 
 
@@ -4152,7 +4156,7 @@ def _mk_c06(name, tier, target, kmin, kmax, first_ops=None):
 _mk_c06("c06_roundtrip_k2_b", "quick", ("/b", "yz"), 1, 2)
 _mk_c06("c06_roundtrip_k2_n", "quick", ("/n", None), 1, 2)
 for _t, _tn in ((("/b", "yz"), "b"), (("/n", None), "n")):
-    for _fo in (("WA0", "WA1", "WA2"), ("AA0", "AA1", "AA2"), ("AL", "WL", "ALS"), ("HW0", "HW1", "HA1")):
+    for _fo in (("WA0", "WA1", "WA2"), ("AA0", "AA1", "AA2"), ("AL", "WL", "ALS"), ("HW0", "HW1", "HA1"), ("WLE", "ALE")):
         _mk_c06("c06_roundtrip_k3_%s_%s" % (_tn, _fo[0].lower()), "thorough", _t, 3, 3, _fo)
 
 
@@ -5200,6 +5204,8 @@ C08_SHAPE_LINK = (None, "d", [(0, "d", [(3, "f", [])]), (1, "l", [0]), (2, "f", 
 C08_SHAPE_LOOP = (None, "d", [(0, "d", [(1, "l", [])])])
 # / { 0: file, 1: link -> /0 }
 C08_SHAPE_FLINK = (None, "d", [(0, "f", []), (1, "l", [0])])
+# / { 0: dir { 1: link -> /0 } }   (a link to its own parent directory)
+C08_SHAPE_LOOP2 = (None, "d", [(0, "d", [(1, "l", [0])])])
 
 
 def c08_expected(ex, st, flat, filt, sort, contents_first, emin, emax, follow=False):
@@ -5241,12 +5247,12 @@ def c08_expected(ex, st, flat, filt, sort, contents_first, emin, emax, follow=Fa
     seq = []
 
     def find(key):
-        return [n for n in flat if len(n["key"]) == len(key) and all(a is b or (a.concrete and b.concrete and a.v == b.v) for a, b in zip(n["key"], key))][0]
+        return [n for n in flat if ex.decide(st, TP.path_eq_text(ex, st, n["key"], key))][0]
 
     def visit(n, depth, open_dirs):
         isdir = n["kind"] == "d" or (n["kind"] == "l" and n["tkind"] == "d")
         as_key = n["target"] if (n["kind"] == "l" and follow) else n["key"]
-        if n["kind"] == "l" and follow and isdir and any(k is n["target"] or (len(k) == len(n["target"]) == 1) for k in open_dirs):
+        if n["kind"] == "l" and follow and isdir and any(ex.decide(st, TP.path_eq_text(ex, st, k, n["target"])) for k in open_dirs):
             seq.append(dict(err="LinkLooping"))
             return
         passes = depth >= emin and (filt == "none" or (filt == "dirs") == isdir)
@@ -5510,7 +5516,7 @@ fn visit(m: &std::collections::BTreeMap<String, Node>, n: &Node, depth: usize, o
 #[test]
 fn replay_entries() {
     // %s
-    let v = Memfs::new();
+    let v = std::sync::Arc::new(Memfs::new());
 %s
 %s
     let (mn, mx): (usize, usize) = (%s, %s);
@@ -5554,17 +5560,26 @@ def _mk_c08(name, tier, shapes, sorts, **kw):
 
 
 
-def _mk_c08_links(name, tier, sorts, dmax):
+C08_LINK_SHAPES = {"dlink": (C08_SHAPE_LINK, 4, "{/{d{f}, link->d, f}}"), "loop": (C08_SHAPE_LOOP, 2, "{/{d{link->/}}} (a cycle through the grandparent)"),
+                   "flink": (C08_SHAPE_FLINK, 2, "{/{f, link->f}}"), "loop2": (C08_SHAPE_LOOP2, 2, "{/{d{link->d}}} (a link to its own directory)")}
+
+
+def _mk_c08_links(name, tier, sorts, dmax, shape):
+    sh, nn, txt = C08_LINK_SHAPES[shape]
+
     @job(name, ["C08", "C12"], tier, functions=C08_FUNCS + ["MemfsEntry::follow (path/alt swap), link-loop detection in EntriesIter::process"],
-         bounds="Memfs only; trees {/{d{f}, link->d, f}}, {/{d{link->/}}} (a cycle), {/{f, link->f}} with symbolic one-char names, both listing orders; follow in {false,true} x sort in %s x "
-                "contents_first in {false,true}, no kind filter, min_depth/max_depth symbolic in 0..=%d or usize::MAX; with follow only the multiset of yielded paths/errors is compared" % (list(sorts), dmax))
+         bounds="Memfs only; tree %s with symbolic one-char names, both listing orders; follow in {false,true} x sort in %s x "
+                "contents_first in {false,true}, no kind filter, min_depth/max_depth symbolic in 0..=%d or usize::MAX; with follow only the multiset of yielded paths/errors is compared" % (
+                    txt, list(sorts), dmax))
     def f(ctx, prop):
-        return run_entries(ctx, prop, name, [(C08_SHAPE_LINK, 4), (C08_SHAPE_LOOP, 2), (C08_SHAPE_FLINK, 2)], sorts, filters=("none",), dmax=dmax, follows=(False, True))
+        return run_entries(ctx, prop, name, [(sh, nn)], sorts, filters=("none",), dmax=dmax, follows=(False, True))
     return f
 
 
-_mk_c08_links("c08_links", "quick", ("none", "name"), 3)
-_mk_c08_links("c08_links_grouped", "thorough", ("dirs_first", "files_first"), 3)
+for _sh in C08_LINK_SHAPES:
+    _mk_c08_links("c08_links_%s" % _sh, "quick", ("none", "name"), 3, _sh)
+    _mk_c08_links("c08_links_grouped_%s" % _sh, "quick", ("dirs_first", "files_first"), 2, _sh)
+    _mk_c08_links("c08_links_grouped3_%s" % _sh, "thorough", ("dirs_first", "files_first"), 3, _sh)
 
 
 for _s in ("none", "name", "dirs_first", "files_first"):
@@ -5687,3 +5702,48 @@ def _under(n, root, flat):
         q = [m for m in flat if m["key"] is p]
         p = q[0]["parent"] if q else None
     return False
+
+
+# ------------------------------------------------------------------------------------------------
+# Self-test of the native replay generators: on the unchanged tree every generated replay must compile and pass.
+# (A replay that does not compile would turn a solver counterexample into "did not reproduce".)
+# ------------------------------------------------------------------------------------------------
+@job("replay_selftest", ["C01", "C03", "C04", "C08", "C09", "C11"], "quick", functions=["(native) replay generators mem_replay_src, c08_replay_src, conc_replay_src"],
+     bounds="one generated replay per generator variant with inputs on which the property holds: each must compile and pass natively")
+def replay_selftest(ctx, prop):
+    import concurrent.futures as cfut
+    t0 = time.time()
+    d3 = lambda extra: "".join(l + "\n" for l in sorted(extra)) + 'cwd=Some("/")'
+    base3 = {'"/a" dir 40750 Some((1000, 1000))', '"/a/a" link->Some("/b") 120777 Some((1000, 1000))', '"/a/b" fileSome("x") 100600 Some((1000, 1000))',
+             '"/b" fileSome("yz") 100644 Some((1000, 1000))'}
+    cases = []
+    for op, cex in (("mkfile", dict(arg0="ab")), ("move_p", dict(arg0="b", arg1="ab")), ("symlink", dict(arg0="ab", arg1="b")), ("copy", dict(arg0="a", arg1="ab")),
+                    ("remove", dict(arg0="a")), ("remove_all", dict(arg0="a")), ("write_all", dict(arg0="ab", data1="Q")), ("mkdir_p", dict(arg0="b/a")), ("set_cwd", dict(arg0="b"))):
+        cases.append(("mem_%s" % op, mem_replay_src(dict(op=op, cwd="/", cex=cex, desc="selftest", tree=TREE1))))
+    cases.append(("copy_b", mem_replay_src(dict(op="copy_b/none/0", cwd="/", desc="selftest", tree=TREE3,
+                                               cex=dict(arg0="b", arg1="ab", expect_dump=d3(base3 | {'"/ab" fileSome("yz") 100644 Some((1000, 1000))'}))))))
+    cases.append(("chmod_b", mem_replay_src(dict(op="chmod_b/all/1/0", cwd="/", desc="selftest", tree=TREE3, cex=dict(arg0="a", val0=0o700, expect_dump=d3(
+        {'"/a" dir 40700 Some((1000, 1000))', '"/a/a" link->Some("/b") 120777 Some((1000, 1000))', '"/a/b" fileSome("x") 100700 Some((1000, 1000))',
+         '"/b" fileSome("yz") 100644 Some((1000, 1000))'}))))))
+    cases.append(("chown_b", mem_replay_src(dict(op="chown_b/owner/1/0", cwd="/", desc="selftest", tree=TREE3, cex=dict(arg0="a", val0=5, val1=7, expect_dump=d3(
+        {'"/a" dir 40750 Some((5, 7))', '"/a/a" link->Some("/b") 120777 Some((5, 7))', '"/a/b" fileSome("x") 100600 Some((5, 7))',
+         '"/b" fileSome("yz") 100644 Some((1000, 1000))'}))))))
+    for k, (opts, shape, nn) in enumerate(((dict(filter="none", sort="name", contents_first=True, follow=True), C08_SHAPE_LINK, 4),
+                                           (dict(filter="files", sort="dirs_first", contents_first=True, follow=False), C08_SHAPE, 5),
+                                           (dict(filter="none", sort="none", contents_first=False, follow=True), C08_SHAPE_LOOP2, 2))):
+        cex = {"name%d" % i: "pqrst"[i] for i in range(nn)}
+        cex.update(min_depth=1, max_depth=(1 << 64) - 1)
+        cases.append(("c08_%d" % k, c08_replay_src(dict(desc="selftest", opts=dict(opts, listing_order=k % 2, shape=0), cex=cex), [(shape, nn)])))
+    cases.append(("conc", conc_replay_src(dict(desc="selftest", threads=[["append_n_x"], ["move_b_ab"]], program="selftest"))))
+
+    def run1(c):
+        return c[0], native_test(c[1], ctx.logdir, "selftest_%s" % c[0])
+    with cfut.ThreadPoolExecutor(max_workers=6) as pool:
+        res = list(pool.map(run1, cases))
+    bad = ["%s: %s" % (n, "does not compile" if not r.get("compiled", True) else "fails on the unchanged tree" if r["failed"] else "did not run")
+           for n, r in res if not (r["ran"] and r["failed"] == 0 and r.get("compiled", True))]
+    unit = dict(status="pass" if not bad else "inconclusive", failures=[], obligations=len(cases), discharged=len(cases) - len(bad), queries=0, solver_s=0.0,
+                symex_s=0.0, paths=len(cases), samples=[dict(replay=n, passed=r["passed"], failed=r["failed"]) for n, r in res[:4]], wall_s=round(time.time() - t0, 1))
+    if bad:
+        unit["why"] = "replay generator self-test: " + "; ".join(bad)
+    return unit
